@@ -276,6 +276,16 @@ class FnTranslator:
         self.summary = None
         self.lifecycle = False
         self.calls_ir = set()
+        # forward `goto L` to a label that is a top-level statement of the function body (the "goto unlock / goto cleanup"
+        # idiom): translated exactly, by duplicating the code from the label to the end of the function at the goto and
+        # returning (tail duplication).  label decl id -> index of the LabelStmt in the top-level statement list
+        self.top = self.body.get("inner", [])
+        self.labels = {}
+        for i, st_ in enumerate(self.top):
+            if st_.get("kind") == "LabelStmt" and st_.get("declId"):
+                self.labels[st_["declId"]] = i
+        self.top_pos = 0          # index of the top-level statement being translated
+        self.goto_depth = 0       # nesting of tail duplications in progress
 
     # ---- regions -------------------------------------------------------------------------
     def param_regions(self, p):
@@ -856,8 +866,29 @@ class FnTranslator:
         line = line_of(s)
         inner = s.get("inner", [])
         if k == "CompoundStmt":
+            if s is self.body and self.goto_depth == 0:
+                for i, c in enumerate(inner):
+                    self.top_pos = i
+                    self.stmt(c)
+            else:
+                for c in inner:
+                    self.stmt(c)
+        elif k == "LabelStmt" and s.get("declId") in self.labels and any(s is t for t in self.top):
+            # reached by falling through: the label itself does nothing
             for c in inner:
                 self.stmt(c)
+        elif k == "GotoStmt" and s.get("targetLabelDeclId") in self.labels and self.labels[s["targetLabelDeclId"]] > self.top_pos \
+                and self.goto_depth < 4:
+            # forward jump: run the rest of the function from the label, then leave the function
+            tgt = self.labels[s["targetLabelDeclId"]]
+            saved = self.top_pos
+            self.goto_depth += 1
+            for i in range(tgt, len(self.top)):
+                self.top_pos = i
+                self.stmt(self.top[i])
+            self.goto_depth -= 1
+            self.top_pos = saved
+            self.b.emit(("ret",))
         elif k == "DeclStmt":
             for d in inner:
                 if d.get("kind") == "VarDecl":
